@@ -12,8 +12,8 @@ from checks import func, scan as scanmod
 KINDS = ["T", "F", "M", "M", "NM", "Cnt", "Ref", "NRef", "EP", "FS", "U8", "Undef", "Mod", "PeSec", "Ext", "Ext", "Hash", "Hash"]
 
 
-def run_plan(variant, lines, wd, name, timeout=900):
-    exe = yv.tool(yv.build(variant), "yvmt", ["yvmt.c"])
+def run_plan(variant, lines, wd, name, timeout=900, extra_cflags=""):
+    exe = yv.tool(yv.build(variant, extra_cflags), "yvmt", ["yvmt.c"])
     od = os.path.join(wd, name)
     shutil.rmtree(od, ignore_errors=True)
     os.makedirs(od)
@@ -196,10 +196,56 @@ def c09(res, tier, seed):
             busn = len(scans)
             if sorted(oks) != sorted([0] * (len(oks) - busn) + [4] * busn) or not any(e["e"] == "Cb" and e["msg"] == "match" for e in evs):
                 res.violation("a thread's ordinary scans are disturbed by scans that take a memory fault: results %s" % oks, yv.save_replay("C09", "bus_t%d_%d" % (t, rep), {"events": evs[:60]}))
+    # what a scan is told does not depend on what other scans over the same rule set are doing or have done: (a) a string that hits
+    # its match limit in one thread (limit scaled to 6) while the others scan data with a few occurrences, under ThreadSanitizer;
+    # (b) the "slow scanning" warning of a rule set with an atom-less string on large data, in every scan of every thread
+    capl = ["ext i ext_t 0", "rules - " + yv.hx(b'rule n { strings: $a = "needle" condition: $a }'), "data 0 " + yv.hx(b"needle " * 40), "data 1 " + yv.hx(b"just one needle here")]
+    nTc = 4 if tier == "quick" else 8
+    for t in range(nTc):
+        capl += ["thread %d" % t, "scan 0 mem - 0 %d" % (60 if tier == "quick" else 300)] if t == 0 else ["thread %d" % t, "scan 1 mem - 0 %d" % (400 if tier == "quick" else 3000)]
+    capl.append("go")
+    rc, err, od = run_plan("tsan", capl, wd, "cap_shared", timeout=600, extra_cflags="-DYR_MAX_STRING_MATCHES=6")
+    res.count(1, ("cap-shared", nTc))
+    if rc != 0 or "ThreadSanitizer" in err:
+        import re
+        msg = re.search(r"WARNING: ThreadSanitizer: [^\n]*", err)
+        res.violation("a string at its match limit in one thread, %d threads scanning: %s" % (nTc, msg.group(0) if msg else "driver exited with %s: %s" % (rc, err[-300:].replace("\n", " | "))),
+                      yv.save_replay("C09", "cap_shared_tsan", {"stderr": err[-6000:]}))
+    else:
+        for t in range(1, nTc):
+            evs = [json.loads(l) for l in open(os.path.join(od, "thread_%d.ndjson" % t)) if l.strip()]
+            got = [e["msg"] for e in evs if e["e"] == "Cb" and e["msg"] in ("match", "nomatch")]
+            hook_records.append({"kind": "errlines", "expected": ["match"] * len(got), "got": got})
+            hook_owner.append((nTc, "cap thread %d" % t, len(got)))
+    slow = ["ext i ext_t 0", "rules - " + yv.hx(b'rule s { strings: $w = /[a-z]+[ ][0-9]+/ condition: $w }'), "datarep 0 %s %d" % (yv.hx(b"abcdefgh 12345678 "), 14000)]
+    for t in range(6):
+        slow += ["thread %d" % t, "scan 0 %s - 0 2" % ("mem" if t % 2 else "rmem")]
+    slow.append("go")
+    rc, err, od = run_plan("plain", slow, wd, "slow_shared", timeout=600)
+    res.count(1, ("slow-shared", 6))
+    if rc != 0:
+        res.violation("slow-scanning warnings with 6 threads: rc=%s %s" % (rc, err[-300:]), yv.save_replay("C09", "slow_rc", {"stderr": err[-3000:]}))
+    else:
+        percall = []
+        for t in range(6):
+            evs = [json.loads(l) for l in open(os.path.join(od, "thread_%d.ndjson" % t)) if l.strip()]
+            cnt = None
+            for e in evs:
+                if e["e"] == "ScanCall": cnt = 0
+                elif e["e"] == "Cb" and e["msg"] == "tooslow" and cnt is not None: cnt += 1
+                elif e["e"] == "ScanRet" and cnt is not None: percall.append(cnt); cnt = None
+        alone = percall[0] if percall else 0
+        hook_records.append({"kind": "errlines", "expected": [max(percall) if percall else 0] * len(percall), "got": percall})
+        hook_owner.append((6, "slow-scanning warnings per scan (every scan is told the same)", len(percall)))
+        res.cov["parts"]["slow_scanning_warnings_per_scan"] = percall
     bad, known, states = func.tlc_judge2(hook_records, wd, "c09_hook")
     res.cov["states"] += states; res.cov["transitions"] += states
     for b in bad:
         T, rd, n = hook_owner[b]
+        if hook_records[b]["kind"] == "errlines":
+            res.violation("%s: every scan must be told %s, was told %s" % (rd, hook_records[b]["expected"][:6], hook_records[b]["got"][:40]),
+                          yv.save_replay("C09", "shared_%s" % str(rd).replace(" ", "_")[:40], {"record": hook_records[b]}))
+            continue
         if hook_records[b]["kind"] == "busfault":
             res.violation("scans that take a memory fault (%s): %s - each must return ERROR_COULD_NOT_MAP_FILE and leave the signal mask of the calling thread unchanged" % (rd, json.dumps(hook_records[b]["scans"])),
                           yv.save_replay("C09", "busfault_%s" % str(rd).replace(" ", "_"), {"scans": hook_records[b]["scans"]}))
